@@ -116,29 +116,67 @@ def _fmt(x):
 # =========================================================================== interp cases
 
 def build(case):
-    """(plain input, laws, sampled volumes, V0, evaluation grid) of a case / call description."""
+    """(plain input, laws, sampled volumes, V0, evaluation grid as float64) of a case / call description."""
     nq, npm = case["shape"]
     kind, degree = case["data"]
+    pres = case.get("vpres", "float64")
+    vscale = case.get("vscale", 1.0) * (R.INT_GRID_UNIT if pres.startswith("int") else 1.0)
     inp, laws, vols, v0 = R.build_input(case["nv"], nq, npm, kind, degree,
-                                        wscale=case.get("wscale", 1.0), vscale=case.get("vscale", 1.0),
+                                        wscale=case.get("wscale", 1.0), vscale=vscale,
                                         acoustic=case.get("acoustic", "mixed"), offset=case.get("offset", 0),
-                                        weights=case.get("weights", "unit"))
-    v = R.v_grid(case["vkind"], vols, n=case.get("ntv", R.N_GRID))
+                                        weights=case.get("weights", "unit"), dup=case.get("dup", "none"))
+    v = R.present_grid(pres, case["vkind"], vols, n=case.get("ntv", R.N_GRID))[1]
     return inp, laws, vols, v0, v
+
+
+def presented_grid(case, vols):
+    return R.present_grid(case.get("vpres", "float64"), case["vkind"], vols, n=case.get("ntv", R.N_GRID))[0]
 
 
 def run_interp(case):
     from cij.core.mode_gamma import interpolate_modes
     method, order = case["mo"]
     inp, laws, vols, v0, v = build(case)
+    pres = case.get("vpres", "float64")
+    vp = presented_grid(case, vols)               # what the code is handed: dtype / strides / flags of this presentation
+    if not numpy.array_equal(vp.astype(numpy.float64), v):
+        raise HarnessError("presented grid and its float64 twin differ")
     try:
         with numpy.errstate(all="ignore"):
-            res = interpolate_modes(real_input(inp), v.copy(), method=method, order=order)
+            res = interpolate_modes(real_input(inp), vp, method=method, order=order)
     except Exception as e:
-        return {"viol": [V(f"c11:{method}:raises:{type(e).__name__}",
-                           f"interpolate_modes(method={method!r}, order={order}) on {case['nv']} volumes raised {type(e).__name__}: {str(e)[:160]}")],
+        return {"viol": [V(f"c11:{method}:raises:{type(e).__name__}" + ("" if pres == "float64" else f":grid-{pres}"),
+                           f"interpolate_modes(method={method!r}, order={order}) on {case['nv']} volumes"
+                           f"{'' if pres == 'float64' else f' with a {pres} volume grid'} raised {type(e).__name__}: {str(e)[:160]}")],
                 "nontrivial": False, "outcome": f"raises:{type(e).__name__}"}
     out = evaluate(case, res, laws, vols, v0, v)
+    if not numpy.array_equal(vp.astype(numpy.float64), v):
+        out["viol"].append(V(f"c11:{method}:v_array-modified", f"the {pres} volume grid was changed in place by the call"))
+    if pres not in ("float64", "float32"):
+        # same volumes, other presentation (dtype / strides / flags): the statement is about the volumes, so the
+        # result must be what the plain float64 array of the same values gives, bit for bit
+        try:
+            with numpy.errstate(all="ignore"):
+                ref = interpolate_modes(real_input(inp), v.copy(), method=method, order=order)
+            diff = []
+            for nm, a, b in zip(("omega", "gamma", "V dgamma/dV"), res, ref):
+                a, b = numpy.asarray(a), numpy.asarray(b)
+                if a.shape != b.shape:
+                    diff.append(f"{nm}: shape {a.shape} vs {b.shape}")
+                    continue
+                bad = ~((a == b) | (numpy.isnan(a.astype(float)) & numpy.isnan(b.astype(float))))
+                if bad.any():
+                    i = tuple(int(x) for x in numpy.argwhere(bad)[0])
+                    diff.append(f"{nm} (dtype {a.dtype}) differs at {int(bad.sum())} entries, e.g. [{i}] (V={float(v[i[0]])!r}) = {a[i].item()!r} vs {b[i].item()!r}")
+            if diff:
+                out["viol"].append(V(f"c11:{method}:grid-{pres}-differs-from-float64",
+                                     f"method={method} order={order}: the same {len(v)} volumes handed over as a {pres} array "
+                                     f"(dtype {vp.dtype}, contiguous={vp.flags.c_contiguous}, writeable={vp.flags.writeable}) do not give the "
+                                     f"float64 result: " + "; ".join(diff)))
+        except Exception as e:
+            out["viol"].append(V(f"c11:{method}:raises:{type(e).__name__}", f"float64 twin of the case raised {e!r}"))
+        if out["viol"]:
+            out["outcome"] = out["viol"][0]["sig"]
     if case.get("weights", "unit") != "unit":
         # weights play no role in the statement: the result must be the unit-weight result, bit for bit
         plain_u = build(dict(case, weights="unit"))[0]
@@ -231,11 +269,20 @@ def evaluate(case, res, laws, vols, v0, v):
         usable = blk is not None and blk.stop - blk.start >= 5          # the log-based checks need omega > 0
         # (1) exactness
         if exact:
+            tol_w, tol_g, tol_h = RTOL_W, ATOL_G, ATOL_G
+            if case.get("vpres") == "float32":
+                # the caller's grid is single precision: ln V may legitimately be formed in float32, i.e. x is known to
+                # eps32 |x| only; first-order propagation d(ln w) = gamma dx, d(gamma) = H dx, dH = H' dx
+                dx = float(numpy.finfo(numpy.float32).eps) * float(numpy.abs(numpy.log(v)).max())
+                h1 = numpy.gradient(H, numpy.log(v)) if len(v) > 2 else numpy.zeros_like(H)
+                tol_w += dx * float(numpy.abs(G).max())
+                tol_g += dx * float(numpy.abs(H).max())
+                tol_h += dx * float(numpy.abs(h1).max())
             ew = float(numpy.abs(ws[fin] / W[fin] - 1).max())
             eg = float(numpy.abs(gs[fin] - G[fin]).max())
             eh = float(numpy.abs(hs[fin] - H[fin]).max())
             worst["w"], worst["g"], worst["h"] = max(worst["w"], ew), max(worst["g"], eg), max(worst["h"], eh)
-            if ew > RTOL_W or eg > ATOL_G or eh > ATOL_G:
+            if ew > tol_w or eg > tol_g or eh > tol_h:
                 # does the slot carry ANOTHER slot's law? (index mixing)
                 other = None
                 for s2 in slots:
@@ -253,7 +300,7 @@ def evaluate(case, res, laws, vols, v0, v):
                 else:
                     i = int(numpy.argmax(numpy.where(fin, numpy.abs(ws / W - 1), 0)))
                     over = ", ".join(f"{name} {err:.3e} (tolerance {tol:g})" for name, err, tol in
-                                     (("omega [relative]", ew, RTOL_W), ("gamma", eg, ATOL_G), ("V dgamma/dV", eh, ATOL_G)) if err > tol)
+                                     (("omega [relative]", ew, tol_w), ("gamma", eg, tol_g), ("V dgamma/dV", eh, tol_h)) if err > tol)
                     add(f"c11:{method}:{fam}-inexact",
                         f"method={method} order={order} n_V={nv} {case['vkind']} grid, {fam} data"
                         f"{'' if fam == 'power-law' else f' of degree {degree}'}, slot (q={q}, m={m}): max error of {over}; "
@@ -265,10 +312,11 @@ def evaluate(case, res, laws, vols, v0, v):
             if sel.sum() >= 5:
                 own = float(numpy.abs(numpy.log(ws[sel]) - numpy.log(W[sel])).max())
                 others = {s2: float(numpy.abs(numpy.log(ws[sel]) - numpy.log(analytic[s2][0][sel])).max())
-                          for s2 in slots if s2 != (q, m)}
-                s2 = min(others, key=others.get)
-                worst["mix"] = max(worst["mix"], own / others[s2])
-                if not own < others[s2]:        # nearest-law classification; measured own/other <= 0.39 on a correct tree
+                          for s2 in slots if s2 != (q, m) and laws[s2[0]][s2[1]] != laws[q][m]}
+                s2 = min(others, key=others.get) if others else None
+                if s2 is not None:
+                    worst["mix"] = max(worst["mix"], own / others[s2])
+                if s2 is not None and not own < others[s2]:        # nearest-law classification; measured own/other <= 0.39 on a correct tree
                     add(f"c11:{method}:slot-mixing",
                         f"slot (q={q}, m={m}): max |ln w - ln w_law| is {own:.3g} to its own law but {others[s2]:.3g} to the law of slot (q={s2[0]}, m={s2[1]})")
         if not usable:
@@ -675,6 +723,11 @@ def explore(ctx):
                 "; plus 9 non-unit q-point weight spellings (increasing, x1e-9, integer, exact zeros at the first / last / middle / "
                 "first and last q-point, all zero, EMPTY list) crossed with the core and with the scale/shape part (result must be the "
                 "unit-weight result bit for bit)"
+                "; plus 5 presentations of the volume grid (int64 / int32 with integral volumes, float32, a strided view, a "
+                "read-only array; the integer, strided and read-only ones must give the float64 result bit for bit, float32 is held "
+                "to the exact triple within the propagated single-precision error of ln V) and 3 kinds of tables whose consecutive "
+                "(q,m) slots hold identical columns (degenerate branches inside a q-point, across a q-point boundary, right after "
+                "the skipped Gamma acoustic slots)"
                 "; every case runs the real interpolate_modes on an analytic table with a distinct law per (q,m) (branches of one "
                 "q-point cross between sampled volumes) and checks exactness (data in the method's function space), the two integral "
                 "identities tying gamma and V dgamma/dV to the returned omega, zero Gamma-acoustic slots, per-slot law identity and "
@@ -731,6 +784,19 @@ def explore(ctx):
     ws_["weights"] = nonunit
     c4, r4 = ctx.run_lattice(MOD, "run_case", ws_, None, part="interp-weights-scales-shapes", extra={"part": "interp"}, canon=canon)
     cases, results = cases + c3 + c4, results + r3 + r4
+    # presentation of the volume grid (dtype / strides / flags) and tables with identical consecutive columns
+    pd = OrderedDict((k, list(v)) for k, v in dims.items())
+    if ctx.quick:
+        pd["nv"], pd["data"], pd["shape"] = [8], [["power", 0], ["morse", 0]], [[2, 6]]
+    pd["vpres"] = [p_ for p_ in R.GRID_PRESENTATIONS if p_ != "float64"]
+    c5, r5 = ctx.run_lattice(MOD, "run_case", pd, None, part="interp-grid-presentations", extra={"part": "interp"}, canon=canon)
+    dd = OrderedDict((k, list(v)) for k, v in dims.items())
+    if ctx.quick:
+        dd["nv"], dd["data"], dd["vkind"] = [8], [["power", 0], ["morse", 0]], ["extended"]
+    dd["shape"] = [[2, 6], [3, 3], [2, 3], [1, 6]]
+    dd["dup"] = [d_ for d_ in R.DUP_KINDS if d_ != "none"]
+    c6, r6 = ctx.run_lattice(MOD, "run_case", dd, None, part="interp-duplicate-columns", extra={"part": "interp"}, canon=canon)
+    cases, results = cases + c5 + c6, results + r5 + r6
     pc = plot_cases(thorough=not ctx.quick)
     ctx.run(MOD, "run_case", pc, part="plot")
 
@@ -760,6 +826,7 @@ def explore(ctx):
                               "wscale": SCALE_DIMS["wscale"], "vscale": SCALE_DIMS["vscale"], "acoustic_input": {k: list(R.ACOUSTIC_VARIANTS[k]) for k in SCALE_DIMS["acoustic"]},
                               "admissible_method_order_nV": sum(1 for m, o in MO for nv in dims["nv"] if o < nv),
                               "weights": {k: R.weights_for(k, 3) for k in R.WEIGHT_KINDS}, "plot_weights": list(PLOT_WEIGHTS),
+                              "grid_presentations": list(R.GRID_PRESENTATIONS), "duplicate_columns": list(R.DUP_KINDS),
                               "history_ops": list(HIST_OPS), "history_max_len": 3 if ctx.quick else 4}
     ctx.notes["crossing_branch_pairs_per_shape"] = {f"{a}x{b}": R.crossings(R.laws_for("power", 0, a, b), vols8, R.v_ref(vols8))
                                                     for a, b in sdims["shape"]}
